@@ -755,15 +755,12 @@ peg::parser! {
                 BraceExpressionMember::CharSequence { start, end, increment: increment.unwrap_or(1) }
             }
 
-        rule number() -> i64 = sign:number_sign()? n:$(['0'..='9']+) {
-            let sign = sign.unwrap_or(1);
-            let num: i64 = n.parse().unwrap();
-            num * sign
+        // N.B. The sign is parsed together with the digits so that the most negative
+        // value is representable; a number that doesn't fit fails the rule (and the
+        // word is then not a sequence expression).
+        rule number() -> i64 = n:$(['-' | '+']? ['0'..='9']+) {?
+            n.parse().or(Err("number"))
         }
-
-        rule number_sign() -> i64 =
-            ['-'] { -1 } /
-            ['+'] { 1 }
 
         rule character() -> char = ['a'..='z' | 'A'..='Z']
 
